@@ -16,6 +16,7 @@ CONSTANTS
   BadKind = ""
   Budgets = {99}
   HalfClosed = TRUE
+  Expects = {FALSE}
   UpgAt = 0
   DEV_UpgradeDropsWbuf = FALSE
   KaOn = TRUE
